@@ -636,6 +636,13 @@ layout BestChecksums
 property C07: NewParagraphReader, lemma idx_least, lemma idx_is, lemma idx_none, lemma idxOf_prefix, (*ParagraphReader).Next, (*ParagraphReader).All
 property C09: lemma idxOf_prefix, lemma idxOf_found, (*Paragraph).Set, (*Paragraph).Update
 
+// the reflective decoder itself is outside the verifier (C09 and the model conformance of C10 are decided for it by the
+// bounded stand-ins): callers are verified against "it may change anything it can reach"
+trusted func Unmarshal
+  // decoding reads from the reader it is given; it does not move a tar reader on to another member
+  ensures is(reader, *tar.Reader) ==> as(reader, *tar.Reader).pos == old(as(reader, *tar.Reader).pos)
+  modifies *
+
 // ---------- C10: dependency fields parsed on demand ----------
 // Each accessor hands the text of its own field - the whole of it, unchanged - to the dependency parser, exactly once,
 // and returns what the parser made of it (nothing on a parse error). callarg/callres speak about the contracted calls
